@@ -34,13 +34,13 @@ def monStep {α β} (sh : Shape) (m : MonSt β) (e : Ev α β) : MonSt β :=
   if !m.envOk || !m.shapeOk || m.panicked then m else
   match e with
   | .inp i => match ctxOfC m.cs with
-    | some c => if legalIn sh m.g c i then { m with g := m.g.onIn (opHeight m.cs) i, cs := .op :: m.cs } else { m with envOk := false }
+    | some c => if legalIn sh m.g.ph c i then { m with g := m.g.onIn (opHeight m.cs) i, cs := .op :: m.cs } else { m with envOk := false }
     | none => { m with shapeOk := false }
   | .out o => match m.cs with
     | .op :: _ => { m with g := m.g.onOut sh o, cs := .env o :: m.cs }
     | _ => { m with shapeOk := false }
   | .retE => match m.cs with
-    | .env o :: r => if legalRet sh m.g (.inCall o) then { m with cs := r } else { m with envOk := false }
+    | .env o :: r => if legalRet sh m.g.ph (.inCall o) then { m with cs := r } else { m with envOk := false }
     | _ => { m with shapeOk := false }
   | .retO => match m.cs with
     | .op :: r => { m with g := m.g.onRetO (opHeight r), cs := r }
